@@ -1,6 +1,6 @@
 CONSTANTS
  Confs <- MCConfs
- FixWaitErr = FALSE
+ FixWaitErr = TRUE
  Reduce = FALSE
  MCShapes = {"img", "dup", "idx2", "nested", "docker", "bentry", "empty", "inline"}
  MCPairs = {"tworeg", "samereg", "samerepo", "reg2dir", "dir2reg", "dir2dir"}
